@@ -89,9 +89,9 @@ type drv struct{}
 func (drv) Open(string) (driver.Conn, error) { return nil, errors.New("pgsim: use Server.Open") }
 
 type conn struct {
-	s      *Server
-	inTx   bool
-	snap   snapshot
+	s    *Server
+	inTx bool
+	snap snapshot
 	// aborted: a statement failed inside the transaction; PostgreSQL ignores every
 	// later command until the end of the transaction block (25P02)
 	aborted bool
@@ -99,7 +99,7 @@ type conn struct {
 	// openRows counts result sets of this connection that were neither read to
 	// the end nor closed: the wire protocol cannot start another statement then
 	openRows int
-	closed bool
+	closed   bool
 }
 
 var errInjected = errors.New("pgsim: injected fault: the server closed the connection unexpectedly")
